@@ -32,10 +32,24 @@ def renderProbes (apply : Scope → Env → Env) (names : List Bytes) : String :
   String.intercalate "|" (probeScopes.flatMap (fun (tag, sc) =>
     (probeEnvs names).zipIdx.map (fun (e, i) => tag ++ ">" ++ toString i ++ ">" ++ renderEnv (apply sc e))))
 
+/-- an unrelated entry of the layer directory: `hexname=hexcontent` is a file, `hexname=@` an empty directory,
+`hexname=@hexchild:hexcontent` a directory holding one file -/
 def parseFile (s : String) : Option (Bytes × Node) :=
-  match parsePair s with
-  | some (k, v) => some (k, .file v)
-  | none => none
+  match s.splitOn "=" with
+  | [k, v] =>
+    match hexDecode k with
+    | none => none
+    | some k =>
+      if v.startsWith "@" then
+        let rest := (v.drop 1).toString
+        if rest = "" then some (k, .dir [])
+        else match rest.splitOn ":" with
+          | [c, b] => match hexDecode c, hexDecode b with
+            | some c, some b => some (k, .dir [(c, .file b)])
+            | _, _ => none
+          | _ => none
+      else (hexDecode v).map (fun v => (k, .file v))
+  | _ => none
 
 def buildLe (ins : List Ins) : LayerEnv :=
   ins.foldl (fun le i => le.insert i.scope i.beh i.name i.val) LayerEnv.empty
